@@ -61,7 +61,8 @@ Section Canon.
     exists cur' dec' placed', assign_codes bits sym M cur dec = ROk (cur', dec') /\ Z.of_nat (length dec') = 2 ^ M /\
       canon_inv [] (sym + Z.of_nat (length bits)) cur' dec' placed' /\
       (forall b, In b placed -> In b placed') /\
-      (forall j, (j < length bits)%nat -> 0 < nth j bits 0 -> exists base, In (sym + Z.of_nat j, base, Z.to_nat (M - nth j bits 0)) placed').
+      (forall j, (j < length bits)%nat -> 0 < nth j bits 0 -> exists base, In (sym + Z.of_nat j, base, Z.to_nat (M - nth j bits 0)) placed' /\
+         base + cnt (nth j bits 0) (skipn j bits) * 2 ^ (M - nth j bits 0) = R (S (Z.to_nat (M - nth j bits 0)))).
   Proof.
     induction bits as [|x t IH]; intros sym cur dec placed Hlc Hld Hs0 Hs Hb Hinv; cbn [assign_codes].
     - exists cur, dec, placed. split; [reflexivity|]. split; [exact Hld|]. cbn [length]. rewrite Z.add_0_r. split; [exact Hinv|]. split; [auto|]. intros j Hj. cbn in Hj. lia.
@@ -74,8 +75,8 @@ Section Canon.
           - eapply Forall_impl; [|exact IB]. intros [[s base] n] (B1 & B2 & B3). split; [exact B1|]. split; [lia|exact B3]. }
         destruct (IH (sym + 1) cur dec placed Hlc Hld ltac:(lia) ltac:(lia) Ht Inv1) as (cur' & dec' & placed' & E & L & Inv' & Hmono & Hpl).
         exists cur', dec', placed'. split; [exact E|]. split; [exact L|]. split; [replace (sym + Z.of_nat (length (x :: t))) with (sym + 1 + Z.of_nat (length t)) by (cbn [length]; lia); exact Inv'|]. split; [exact Hmono|].
-        intros j Hj Hpos. destruct j as [|j]; [cbn [nth] in Hpos; lia|]. cbn [nth] in *. destruct (Hpl j ltac:(cbn in Hj; lia) Hpos) as (base & Hin).
-        exists base. replace (sym + Z.of_nat (S j)) with (sym + 1 + Z.of_nat j) by lia. exact Hin.
+        intros j Hj Hpos. destruct j as [|j]; [cbn [nth] in Hpos; lia|]. cbn [nth skipn] in *. destruct (Hpl j ltac:(cbn in Hj; lia) Hpos) as (base & Hin & Hcl).
+        exists base. replace (sym + Z.of_nat (S j)) with (sym + 1 + Z.of_nat j) by lia. split; [exact Hin|exact Hcl].
       + destruct (Z.leb_spec (Z.of_nat (length cur)) x) as [H|_]; [lia|].
         set (n := Z.to_nat (M - x)). assert (Hn : (n < Z.to_nat M)%nat) by (unfold n; lia).
         assert (Ex : M - Z.of_nat n = x) by (unfold n; lia).
@@ -131,8 +132,9 @@ Section Canon.
         exists cur', dec', placed'. split; [exact E|]. split; [exact L|]. split; [replace (sym + Z.of_nat (length (x :: t))) with (sym + 1 + Z.of_nat (length t)) by (cbn [length]; lia); exact Inv'|].
         split; [intros b0 Hb0; apply Hmono; right; exact Hb0|].
         intros j Hj Hpos. destruct j as [|j].
-        * cbn [nth]. exists base. rewrite Z.add_0_r. apply Hmono. left. reflexivity.
-        * cbn [nth] in *. destruct (Hpl j ltac:(cbn in Hj; lia) Hpos) as (b0 & Hin). exists b0. replace (sym + Z.of_nat (S j)) with (sym + 1 + Z.of_nat j) by lia. exact Hin.
+        * cbn [nth skipn]. exists base. rewrite Z.add_0_r. split; [apply Hmono; left; reflexivity|].
+          cbn [cnt]. rewrite Z.eqb_refl. replace (M - x) with (Z.of_nat n) by lia. rewrite Nat2Z.id. unfold base. lia.
+        * cbn [nth skipn] in *. destruct (Hpl j ltac:(cbn in Hj; lia) Hpos) as (b0 & Hin & Hcl). exists b0. replace (sym + Z.of_nat (S j)) with (sym + 1 + Z.of_nat j) by lia. split; [exact Hin|exact Hcl].
   Qed.
 End Canon.
 Lemma build_table_setup ws dec0 M0 bits0 ranks0 idxs0 : Forall (fun w => 0 <= w) ws ->
@@ -229,8 +231,10 @@ Theorem built_table_blocks ws dec M bits ranks idxs : Forall (fun w => 0 <= w) w
        forall i, base <= i < base + 2 ^ Z.of_nat n -> nth_h dec i = {| h_sym := s; h_bits := M - Z.of_nat n |}) /\
     (* the blocks cover the table *)
     (forall i, 0 <= i < 2 ^ M -> exists s base n, In (s, base, n) placed /\ base <= i < base + 2 ^ Z.of_nat n) /\
-    (* every symbol with a code length has its block *)
-    (forall j, (j < length bits)%nat -> 0 < nth j bits 0 -> exists base, In (Z.of_nat j, base, Z.to_nat (M - nth j bits 0)) placed).
+    (* every symbol with a code length has its block, at the canonical place: after the blocks of all longer codes and of the
+       smaller symbols with the same length *)
+    (forall j, (j < length bits)%nat -> 0 < nth j bits 0 -> exists base, In (Z.of_nat j, base, Z.to_nat (M - nth j bits 0)) placed /\
+       base = region M ranks (Z.to_nat (M - nth j bits 0)) + cnt (nth j bits 0) (firstn j bits) * 2 ^ (M - nth j bits 0)).
 Proof.
   intros Hnn Hlen Hb.
   destruct (build_table_setup ws dec M bits ranks idxs Hnn Hb) as (HM & Lb & Hbits & Hr0 & Hreg & idxs0 & Li & Gi & Gr & Ea).
@@ -263,5 +267,12 @@ Proof.
       - exists m. split; [lia|lia]. }
     destruct (Hfind (Z.to_nat M) (le_n _) ltac:(rewrite Hreg; lia)) as (n & Hn & Hr).
     destruct (IC n i Hn ltac:(rewrite Hcur by exact Hn; lia)) as (s & base & Hin & Hrange). exists s, base, n. split; assumption.
-  - intros j Hj Hpos. destruct (Hpl j Hj Hpos) as (base & Hin). exists base. exact Hin.
+  - intros j Hj Hpos. destruct (Hpl j Hj Hpos) as (base & Hin & Hcl). exists base. split; [exact Hin|].
+    rewrite Forall_forall in Hbits. pose proof (Hbits _ (nth_In bits 0 Hj)) as Hle.
+    set (x := nth j bits 0) in *. set (n := Z.to_nat (M - x)) in *.
+    assert (Ecnt : cnt x bits = cnt x (firstn j bits) + cnt x (skipn j bits)).
+    { rewrite <- (firstn_skipn j bits) at 1. generalize (firstn j bits) (skipn j bits). intros a b.
+      induction a as [|y a IHa]; cbn [app cnt]; [lia|]. rewrite IHa. lia. }
+    cbn [region] in Hcl. fold n in Hcl. replace (M - Z.of_nat n) with x in Hcl by (unfold n; lia). rewrite Gr in Hcl by lia.
+    rewrite Ecnt in Hcl. replace (2 ^ Z.of_nat n) with (2 ^ (M - x)) in Hcl by (f_equal; unfold n; lia). nia.
 Qed.
